@@ -129,6 +129,21 @@ def composition(qA, qB, sign):
         parts["mismatch_rejected"] = False
     except ValueError:
         parts["mismatch_rejected"] = True
+    # ... on every composition route: the matrix overloads and the registry's transform(key, matrix)
+    def rejected(f):
+        try:
+            f()
+            return False
+        except ValueError:
+            return True
+
+    parts["mismatch_rejected_by_matrix_overload"] = rejected(lambda: B.transform(A)) and rejected(lambda: B.transform(matrix=A))
+    td = TransformDict([A])  # registered base_link -> lidar_top; composing it with a matrix that starts elsewhere
+    parts["mismatch_rejected_by_registry"] = rejected(lambda: td.transform((FrameID.BASE_LINK, FrameID.LIDAR_TOP), A)) and \
+        rejected(lambda: td.transform((FrameID.LIDAR_TOP, FrameID.BASE_LINK), matrix=B))
+    ok = td.transform((FrameID.BASE_LINK, FrameID.LIDAR_TOP), B)
+    parts["registry_composition"] = L.And(ok.src == FrameID.BASE_LINK, ok.dst == FrameID.MAP,
+                                          close_vec(ok.transform(tuple(p)), two_step))
     # three-frame chain is associative
     D, td, MD = hm("d", qA, 1, False, FrameID.MAP, FrameID.CAM_FRONT)
     left = D.dot(B).dot(A).transform(tuple(p))
